@@ -139,4 +139,51 @@ def stormLine (toks : List String) : String :=
     | [] => r
   | _ => "bad-op"
 
+/-- several clients under a schedule: by `c12_projection` each client's outcome is its solo outcome, so the
+schedule does not enter the answer. Clients: `d:name:b:w`, `u:name:b:w:content`, `i:kind`. -/
+def multiLine (toks : List String) : String :=
+  match toks with
+  | "multi" :: rootH :: flags :: fsS :: _sched :: clients =>
+    match bytesOfHex rootH with
+    | none => "bad-op"
+    | some root =>
+      let fl := parseFlags flags
+      let cfg := mkCfg root fl
+      match parseFs root fl fsS with
+      | none => "bad-op"
+      | some fs0 =>
+        let cls := if cfg.singlePort then "L" else "T"
+        let step (acc : Option (Fs × List String)) (spec : String) : Option (Fs × List String) := do
+          let (fs, outs) ← acc
+          match spec.splitOn ":" with
+          | ["d", name, b, w] =>
+            let os : List TransferOption := [{ option := .blksize, value := (← b.toNat?) }, { option := .windowsize, value := (← w.toNat?) }]
+            let r := handleRrq cfg fs0 (bytesOfString name) os
+            match r.worker, r.reply with
+            | some wk, _ =>
+              match fs0.stat wk.path with
+              | some (.file c) => pure (fs, outs ++ [s!"ok:{c.length}:{fnv c}:{cls}"])
+              | _ => pure (fs, outs ++ ["noreply"])
+            | none, some (_, .error c _) => pure (fs, outs ++ [s!"err:{errIndex c}:L"])
+            | none, _ => pure (fs, outs ++ ["noreply"])
+          | "u" :: name :: b :: w :: rest =>
+            let content ← parseContent (":".intercalate rest)
+            let os : List TransferOption := [{ option := .blksize, value := (← b.toNat?) }, { option := .windowsize, value := (← w.toNat?) }]
+            let r := handleWrq cfg fs0 (bytesOfString name) os
+            match r.worker, r.reply with
+            | some wk, _ =>
+              if cfg.readOnly then pure (fs, outs ++ ["err:2:L"])
+              else if fs0.canCreate wk.path then pure (fs.set (components wk.path) (.file content), outs ++ [s!"ok:{cls}"])
+              else pure (fs, outs ++ ["noreply"])
+            | none, some (_, .error c _) => pure (fs, outs ++ [s!"err:{errIndex c}:L"])
+            | none, _ => pure (fs, outs ++ ["noreply"])
+          | ["i", _] => pure (fs, outs ++ ["E4L"])
+          | _ => none
+        match clients.foldl step (some (fs0, [])) with
+        | none => "bad-op"
+        | some (fs, outs) =>
+          let named := (List.range outs.length).zip outs |>.map fun (i, o) => s!"c{i}={o}"
+          " ".intercalate named ++ " ; fs=" ++ showFs root fs
+  | _ => "bad-op"
+
 end Tftp.Driver
